@@ -142,7 +142,9 @@ func c05(c *Ctx) {
 			}
 			return true
 		})
-		rootOK := func(e ast.Expr) bool {
+		fg := ax.FG(fn)
+		var rootOKd func(e ast.Expr, depth int) bool
+		rootOKd = func(e ast.Expr, depth int) bool {
 			for {
 				switch x := unparen(e).(type) {
 				case *ast.SliceExpr:
@@ -154,8 +156,20 @@ func c05(c *Ctx) {
 				}
 				break
 			}
-			return fresh != nil && sameVar(ainfo, e, fresh)
+			if fresh != nil && sameVar(ainfo, e, fresh) {
+				return true
+			}
+			// a named window of the fresh slice (head := slice[:first+1]) is the fresh slice's storage
+			if depth < 3 {
+				if def := fg.LocalDef(objOf(ainfo, e)); def != nil {
+					if _, isSl := unparen(def).(*ast.SliceExpr); isSl {
+						return rootOKd(def, depth+1)
+					}
+				}
+			}
+			return false
 		}
+		rootOK := func(e ast.Expr) bool { return rootOKd(e, 0) }
 		var bad []string
 		f2f := ax.Func("filteredToFront")
 		inspectNoLit(fn.Body(), func(n ast.Node) bool {
